@@ -17,7 +17,7 @@ ROOT = os.path.dirname(os.path.dirname(os.path.abspath(__file__)))
 sys.path.insert(0, ROOT)
 
 from pyvc import verify  # noqa: E402
-from pyvc import models_py, models_numpy, sbytes  # noqa: E402,F401  (register library models)
+from pyvc import models_py, models_numpy, sbytes, fsmodel  # noqa: E402,F401  (register library models)
 
 EXTRACTION_DROPS = [
     "docstrings, type annotations, __all__",
